@@ -362,7 +362,7 @@ class CFG(object):
         return out
 
     # ------------------------------------------------------------ must facts
-    def must_facts(self, prog=None, entry_facts=(), kill_on_suspend=True):
+    def must_facts(self, prog=None, entry_facts=(), kill_on_suspend=True, suspend_pred=None):
         """Forward must-analysis.  Returns dict node id -> frozenset of
         (atom_text, polarity) that hold on *every* path on entry to the node."""
         TOP = None
@@ -371,20 +371,21 @@ class CFG(object):
         work = [self.entry.id]
         kills = {n.id: self._kills(n, prog) for n in self.nodes}
         gens = {n.id: _gens(n) for n in self.nodes}
+        susp = {n.id: (n.suspends if suspend_pred is None else bool(n.suspends and suspend_pred(n))) for n in self.nodes}
         while work:
             x = work.pop()
             fx = fin[x]
             if fx is TOP:
                 continue
             n = self.nodes[x]
-            out = _apply_kill(fx, kills[x], n.suspends and kill_on_suspend)
+            out = _apply_kill(fx, kills[x], susp[x] and kill_on_suspend)
             out = out | gens[x]
             for t, lab in self.succ[x]:
                 f = out
                 if lab == ("exc",):
                     # the statement may have been interrupted mid-way: its own
                     # gens do not hold, its kills do
-                    f = _apply_kill(fx, kills[x], n.suspends and kill_on_suspend)
+                    f = _apply_kill(fx, kills[x], susp[x] and kill_on_suspend)
                 elif lab and lab[0] == "cond":
                     f = out | cond_atoms(lab[1], lab[2])
                 new = f if fin[t] is TOP else (fin[t] & f)
